@@ -232,9 +232,11 @@ def line_scale(toks):
                 m = max(m, abs(n.v))
     return m
 
-def compare_ok(op, impl_toks, model_toks, tol):
+def compare_ok(op, impl_toks, model_toks, tol, abs_scale=None):
     """generic comparison of two `ok` token lists"""
     scale = line_scale(model_toks)
+    if abs_scale is not None and tol:
+        scale = max(scale, Fraction(abs_scale))
     si, sm = split_sets(impl_toks), split_sets(model_toks)
     if len(si) != len(sm):
         return False
@@ -274,21 +276,24 @@ def q2f(tok):
         return safe_float(n.v)
     return {'inf': math.inf, '-inf': -math.inf, 'nan': math.nan}[n.v]
 
-def cmp_special(op, it, mt, tol):
+def cmp_special(op, it, mt, tol, abs_scale=None):
     name = op[0]
+    sc = float(abs_scale) if (abs_scale is not None and tol) else 0.0
     try:
         if name == 'rf_norm':
             rf, tot = int(mt[0]), int(mt[1])
             exp = (rf / tot) if tot else math.nan
             return close(fl(it[0]), exp, 1e-15)
         if name == 'kf':
-            return close(fl(it[0]), math.sqrt(q2f(mt[0])), 1e-9 if tol else 1e-14)
+            e = math.sqrt(q2f(mt[0]))
+            return close(fl(it[0]), e, 1e-9 if tol else 1e-14) or abs(fl(it[0]) - e) <= 1e-9 * sc
         if name == 'cmp_topo':
             rf, tot = int(mt[0]), int(mt[1])
             ok = fl(it[0]) == float(rf)
             ok = ok and close(fl(it[1]), (rf / tot) if tot else math.nan, 1e-15)
-            ok = ok and num_eq(decode_num(it[2]), decode_num(mt[2]), tol, line_scale(mt))
-            ok = ok and close(fl(it[3]), math.sqrt(q2f(mt[3])), 1e-9 if tol else 1e-14)
+            ok = ok and num_eq(decode_num(it[2]), decode_num(mt[2]), tol, max(line_scale(mt), Fraction(sc)))
+            e3 = math.sqrt(q2f(mt[3]))
+            ok = ok and (close(fl(it[3]), e3, 1e-9 if tol else 1e-14) or abs(fl(it[3]) - e3) <= 1e-9 * sc)
             return ok
         if name in ('colless_yule', 'sackin_yule', 'colless_pda', 'sackin_pda'):
             idx, n = int(mt[0]), int(mt[1])
@@ -608,9 +613,9 @@ def compare_case(case, impl_lines, model_lines, tol, strict_err_ops=()):
             continue
         if il[0] != 'ok':
             continue
-        r = cmp_special(a, il[1:], ml[1:], tol)
+        r = cmp_special(a, il[1:], ml[1:], tol, case.meta.get('abs_scale'))
         if r is None:
-            r = compare_ok(a, il[1:], ml[1:], tol)
+            r = compare_ok(a, il[1:], ml[1:], tol, case.meta.get('abs_scale'))
         if not r:
             dis.append((i, 'value'))
     return dis
